@@ -226,8 +226,10 @@ def gen_args(rng, kind):
     if kind == "pause":
         n = rng.choice([-5, -1, 0, 1, 2, 749, 750, 751, 752, 1499, 1500, 1501, 1502, 2250, 2251,
                         rng.randint(1, 5000), rng.randint(1, 100000)])
-        return [n], [n], ["pause:n<=0" if n <= 0 else "pause:n<=750" if n <= 750 else "pause:multiple of 750"
-                          if n % 750 == 0 else "pause:several chunks"]
+        if rng.random() < 0.006:       # rare: hours-long pauses (thousands of chunks)
+            n = rng.choice([3071999, 3072000, 3072001, 750 * 4097, 5000001, rng.randint(10 ** 6, 10 ** 7)])
+        return [n], [n], ["pause:n<=0" if n <= 0 else "pause:n<=750" if n <= 750 else "pause:more than 4000 chunks"
+                          if n > 3000000 else "pause:multiple of 750" if n % 750 == 0 else "pause:several chunks"]
     if kind == "lm":
         def axis():
             c = rng.randrange(6)
@@ -516,6 +518,7 @@ def run(ctx):
                 "pen:pin absent", "pen:pin None", "pen:pin zero", "pen:pin non-zero", "sr:state absent", "sr:state zero",
                 "sr:state non-zero", "no port:legacy", "no port:ebb3"):
         ctx.need(cls, 30)
+    ctx.need("pause:more than 4000 chunks", 4)
     ctx.need("monitor:writes parsed", 20000)
     ctx.need("monitor:layer pairs compared", 3000)
 
